@@ -26,6 +26,10 @@ def parsePkg (s : String) : Option (Pkg String) :=
 def parseLib (s : String) : Option (List (Pkg String)) :=
   (s.splitOn ";").mapM parsePkg
 
+/-- Go string order (`sort.Strings`): byte-wise on the UTF-8 encoding. -/
+def strLe (a b : String) : Bool :=
+  bytesLe (a.toUTF8.toList.map (·.toNat)) (b.toUTF8.toList.map (·.toNat))
+
 def renderBlock (withAnon : Bool) (b : String × Option Nat) : String :=
   match b.2 with
   | some k => if withAnon then s!".{b.1}@{k}" else s!".{b.1}"
@@ -64,7 +68,7 @@ def handle (args : List String) : String :=
     match parseLib lib with
     | none => "bad-op"
     | some lib =>
-      let st := initPkg (lib.length + 1) lib root { initialized := [], blocks := [], anon := 0 }
+      let st := initPkg strLe (lib.length + 1) lib root { initialized := [], blocks := [], anon := 0 }
       joinOr (st.blocks.map (renderBlock true))
   | ["hist", k, lib, root, calls] =>
     match k.toNat?, parseLib lib with
@@ -73,7 +77,7 @@ def handle (args : List String) : String :=
       | none => "bad-op"
       | some m =>
         let prog : Prog String := { main := m, mainFuncs := [root], calls := listOf calls }
-        let outs := compileRepeated lib prog k Cache.empty
+        let outs := compileRepeated strLe lib prog k Cache.empty
         "/".intercalate (outs.map fun o =>
           "init=" ++ joinOr (o.initBlocks.map (renderBlock false)) ++ ";fn=" ++
             joinOr (o.funcLabels.map fun f => s!"{f.1}#{f.2}"))
